@@ -6,7 +6,7 @@ import sys, os, json, subprocess, shutil, glob
 from concurrent.futures import ThreadPoolExecutor
 V = '/verif'
 seeds = [int(a) for a in sys.argv[1:]] or [1, 2, 3]
-ids = sorted(os.path.basename(d) for d in glob.glob(V + '/seeded/*') if os.path.isdir(d))
+ids = sorted(os.path.basename(d) for d in glob.glob(V + '/seeded/*') if os.path.isdir(d) and not os.path.basename(d).startswith('_'))
 
 
 def one(sid):
